@@ -52,11 +52,18 @@ def structures():
         "nonnormal": np.array([[1.0, 1.000244140625], [-1.0, -1.0]]),
         "indef4": np.array([[0.9, -1.3, 0.4, 1.1], [1.2, -0.7, -1.5, 0.3], [-0.6, 1.4, -0.8, -1.0], [-1.1, -0.2, 1.3, -0.6]]),
         "rot_growth": np.array([[0.0, 30.0, 0.0], [-30.0, 0.0, 1.0], [0.0, 0.0, -0.5]]) / 30.0,
+        # lower triangular (cascade of lags), and singular matrices without a positive entry (integrator next to lags,
+        # rank-one decay): sign structure and triangular orientation are visible to norm/peak shortcuts
+        "lowtri": np.array([[-1.0, 0.0, 0.0], [2.0, -0.3, 0.0], [-0.5, 1.0, -2.0]]),
+        "rbdecay": np.diag([0.0, -1.0, -2.5]),
+        "lowsing": np.array([[0.0, 0.0], [-2.0, -3.0]]),
+        "negones": -np.ones((3, 3)),
+        "posones": np.ones((3, 3)) - 2.0 * np.eye(3),
     }
 
 
 GROWING = {"dense3", "indef4"}  # positive real eigenvalue: cap the norm
-SINGULAR = {"zero", "nilpotent", "singsym", "skew3", "nonnormal"}  # (nonnormal: eigenvalues +-0.0156i, cond ~ 8e3: nearly singular)
+SINGULAR = {"zero", "nilpotent", "singsym", "skew3", "nonnormal", "rbdecay", "lowsing", "negones", "posones"}  # (nonnormal: eigenvalues +-0.0156i, cond ~ 8e3: nearly singular)
 
 
 def norms(tier):
@@ -373,8 +380,75 @@ def check_ss_history(sysname, res, maxlen):
     return out
 
 
+def _ss_same(X, Y, tol=1e-7):
+    X, Y = np.asarray(X, float), np.asarray(Y, float)
+    return X.shape == Y.shape and np.abs(X - Y).max() <= tol * max(1.0, np.abs(Y).max())
+
+
+def check_ss_chain(sysname, res):
+    """K2 over conversion chains: EVERY chain c2d(m1,h1) -> d2c(m1) -> c2d(m2,h2) -> d2c(m2) over the method/step menu
+    (also entered from a discrete model built directly from matrices); every intermediate model must be the model the
+    same conversion gives on a fresh object holding the true matrices, continuous results carry no step (h None),
+    discrete ones the step asked for, and getlti() of every model in the chain is the continuous system"""
+    from pyyeti.ssmodel import SSModel
+
+    out = []
+    A, B, C, D = ss_systems()[sysname]
+    menu = [(m, h, 0) for m in ("zoh", "zoha", "foh", "tustin") for h in (0.05, 0.3)] + [("tustin", 0.05, 3.0)]
+
+    def kw(m, pw):
+        return dict(method=m, prewarp=pw) if m == "tustin" else dict(method=m)
+
+    def fresh_d(m, h, pw):
+        return SSModel(A.copy(), B.copy(), C.copy(), D.copy()).c2d(h, **kw(m, pw))
+
+    def lti_ok(S):
+        L = S.getlti()
+        return all(_ss_same(X, Y) for X, Y in zip((L.A, L.B, L.C, L.D), (A, B, C, D)))
+
+    for (m1, h1, p1), (m2, h2, p2), entry in itertools.product(menu, menu, ("c2d", "direct")):
+        chain = [entry, [m1, h1, p1], [m2, h2, p2]]
+        res.traces += 1
+        try:
+            F1 = fresh_d(m1, h1, p1)
+            if entry == "c2d":
+                S1 = SSModel(A.copy(), B.copy(), C.copy(), D.copy()).c2d(h1, **kw(m1, p1))
+            else:  # a discrete model handed over as matrices
+                S1 = SSModel(F1.A.copy(), F1.B.copy(), F1.C.copy(), F1.D.copy(), h=h1, method=m1, prewarp=p1 or None)
+            steps = [("c2d#1", S1, F1, h1)]
+            Sc = S1.d2c(**kw(m1, p1))
+            steps.append(("d2c#1", Sc, None, None))
+            S2 = Sc.c2d(h2, **kw(m2, p2))
+            steps.append(("c2d#2", S2, fresh_d(m2, h2, p2), h2))
+            Sc2 = S2.d2c(**kw(m2, p2))
+            steps.append(("d2c#2", Sc2, None, None))
+            res.transitions += 4
+            for nm, S, F, h in steps:
+                if F is None:
+                    if S.h is not None:
+                        out.append(("ss-chain", "%s in the chain %s: a continuous model reports the time step h=%r" % (nm, chain, S.h), chain))
+                    if not all(_ss_same(X, Y) for X, Y in zip((S.A, S.B, S.C, S.D), (A, B, C, D))):
+                        out.append(("ss-chain", "%s in the chain %s does not recover the continuous system" % (nm, chain), chain))
+                else:
+                    if S.h != h:
+                        out.append(("ss-chain", "%s in the chain %s: discrete model reports h=%r, asked for %r" % (nm, chain, S.h, h), chain))
+                    if not all(_ss_same(X, Y) for X, Y in zip((S.A, S.B, S.C, S.D), (F.A, F.B, F.C, F.D))):
+                        out.append(("ss-chain", "%s in the chain %s differs from the same conversion of a fresh continuous model" % (nm, chain), chain))
+                if (F is None or S.method == "foh") and not lti_ok(S):
+                    # getlti() converts a discrete model with d2c defaults (foh): defined for foh models and continuous ones
+                    out.append(("ss-chain", "%s in the chain %s: getlti() is not the continuous system" % (nm, chain), chain))
+        except Exception as ex:  # noqa
+            out.append(("ss-chain", "the chain %s raised %r" % (chain, ex), chain))
+        if len(out) > 6:
+            break
+    res.states += 4 * len(menu) ** 2 * 2
+    return out
+
+
 def shards(tier, seed):
     out = []
+    for sysname in ("osc2", "mimo3", "first1"):
+        out.append(dict(part="ss-chain", sys=sysname, tier=tier))
     for sysname in ("osc2", "mimo3", "first1"):
         out.append(dict(part="ss-hist", sys=sysname, maxlen=2 if tier == "quick" else 3, tier=tier))
     for sname in structures():
@@ -404,7 +478,20 @@ def _relerr_of(msg):
 def _m_singular(case, msg):
     """singular A, ||Ah||_1 above the getEPQ switch, second integral requested from the Pade-13 route
     (expmint(geti2=True) / getEPQ1(order=1)): the power-series fallback cancels catastrophically"""
-    return case.get("part") == "mat" and case.get("s") in SINGULAR and bool(case.get("singular_big")) and _affected_fn(case)
+    if not (case.get("part") == "mat" and case.get("s") in SINGULAR and bool(case.get("singular_big")) and _affected_fn(case)):
+        return False
+    # the finding is a loss of digits by cancellation in sum (Ah)^k/(k+2)!: the error is bounded by eps*exp(||Ah||_1)
+    # (observed <= 1e-2 of that); for the nearly singular member the LU route loses eps*cond(A)^2 instead.  Anything
+    # larger is a different defect and is reported.
+    S = structures()[case["s"]]
+    A = S * (case["target"] / (np.abs(S).sum(axis=0).max() * case["h"]))
+    nrm = float(np.abs(A * case["h"]).sum(axis=0).max())
+    bound = EPS * math.exp(min(nrm, 700.0))
+    c = np.linalg.cond(A)
+    if np.isfinite(c) and c < 1e7:
+        bound = max(bound, 10 * EPS * c * c)
+    e = _relerr_of(msg)
+    return ("one step" in msg and bound > 1e-12) or (e is not None and e <= bound)
 
 
 def _m_stiff(case, msg):
@@ -441,6 +528,11 @@ def run_shard(sh):
                 res.viol({"part": "mat", "s": sh["s"], "target": sh["target"], "h": h, "tier": tier, "fn": tag, "singular_big": bool(sb)},
                          msg, kind=("SB-" if sb else "") + tag.split("(")[0] + "-" + msg.split(":")[-2].strip()[:20] if ":" in msg else tag)
         res.sample({"part": "mat", "structure": sh["s"], "norm_Ah": sh["target"], "h": h, "signature": sig})
+    elif sh["part"] == "ss-chain":
+        for tag, msg, chain in check_ss_chain(sh["sys"], res):
+            res.viol({"part": "ss-chain", "sys": sh["sys"], "chain": chain}, msg, kind="ss-chain-" + msg.split(":")[-1][:30])
+        res.ev("ss-chain/%s" % sh["sys"], n=0)
+        res.sample(dict(sh))
     elif sh["part"] == "ss-hist":
         for tag, msg, seq in check_ss_history(sh["sys"], res, sh["maxlen"]):
             res.viol({"part": "ss-hist", "sys": sh["sys"], "maxlen": sh["maxlen"], "seq": seq}, msg, kind="ss-hist-" + msg.split(":")[-1][:30])
@@ -465,6 +557,9 @@ def replay(case):
     if case["part"] == "mat":
         out, _, _, _ = check_matrix(case["s"], structures()[case["s"]], case["target"], case["h"], case["tier"], res)
         return [m for t, m in out if t == case.get("fn", t)] or [m for t, m in out]
+    if case["part"] == "ss-chain":
+        from vf.core import jsame
+        return [m for t, m, ch in check_ss_chain(case["sys"], res) if jsame(ch, case["chain"])]
     if case["part"] == "ss-hist":
         return [m for t, m, seq in check_ss_history(case["sys"], res, case["maxlen"]) if seq == case.get("seq", seq)]
     return [m for t, m in check_ss(case["sys"], case["h"], case["method"], case["prewarp"], res)]
